@@ -73,12 +73,8 @@ Proof.
 Qed.
 
 Section SF.
-  Variables (flow_sample_l counter_sample_l ext_switch_l generic_l ethernet_l tokenring_l vg_l vlan_l processor_l : layout).
-  Variables (flow_sample_f counter_sample_f ext_switch_f generic_f ethernet_f tokenring_f vg_f vlan_f processor_f : list string).
-  Hypothesis Hfs : layout_nonneg flow_sample_l.
-  Hypothesis Hcs : layout_nonneg counter_sample_l.
+  Variables (ext_switch_l : layout) (ext_switch_f : list string).
   Hypothesis Hes : layout_nonneg ext_switch_l.
-  Hypothesis Hcl : forall f key L F, counter_layout generic_l ethernet_l tokenring_l vg_l vlan_l processor_l generic_f ethernet_f tokenring_f vg_f vlan_f processor_f f = Some (key, L, F) -> layout_nonneg L.
 
   Ltac step_u H n r v q E Hq Hs Hv :=
     destruct (sread_u_good n r H ltac:(lia)) as [Hg Hv];
@@ -140,3 +136,195 @@ Section SF.
       destruct (flow_records _ _ k (n - 1) (sseek l q2) m) as [[m' q4]| | |]; cbn [good] in *; auto. destruct IH; split; [assumption|lia].
   Qed.
 End SF.
+
+Section SF2.
+  Variables (flow_sample_l counter_sample_l ext_switch_l generic_l ethernet_l tokenring_l vg_l vlan_l processor_l : layout).
+  Variables (flow_sample_f counter_sample_f ext_switch_f generic_f ethernet_f tokenring_f vg_f vlan_f processor_f : list string).
+  Hypothesis Hfs : layout_nonneg flow_sample_l.
+  Hypothesis Hcs : layout_nonneg counter_sample_l.
+  Hypothesis Hes : layout_nonneg ext_switch_l.
+  Hypothesis Hgen : layout_nonneg generic_l.
+  Hypothesis Heth : layout_nonneg ethernet_l.
+  Hypothesis Htr : layout_nonneg tokenring_l.
+  Hypothesis Hvg : layout_nonneg vg_l.
+  Hypothesis Hvl : layout_nonneg vlan_l.
+  Hypothesis Hpr : layout_nonneg processor_l.
+
+  Notation counter_layout' := (counter_layout generic_l ethernet_l tokenring_l vg_l vlan_l processor_l generic_f ethernet_f tokenring_f vg_f vlan_f processor_f).
+  Notation counter_records' := (counter_records generic_l ethernet_l tokenring_l vg_l vlan_l processor_l generic_f ethernet_f tokenring_f vg_f vlan_f processor_f).
+
+  Lemma counter_layout_nonneg f key L F : counter_layout' f = Some (key, L, F) -> layout_nonneg L.
+  Proof.
+    unfold counter_layout. intros E.
+    repeat match type of E with (if ?c then _ else _) = _ => destruct c; [injection E as _ <- _; assumption|] end. discriminate E.
+  Qed.
+
+  Lemma two_reads r f q1 l q2 : sread_u 4 r = Ok (f, q1) -> sread_u 4 q1 = Ok (l, q2) -> srem q2 = srem r - 8 /\ 8 <= srem r.
+  Proof.
+    intros E1 E2. unfold sread_u, sread_full in E1, E2. cbn [Z.eqb] in E1, E2.
+    destruct (srem r <? 4) eqn:G1; cbn [bind fst snd] in E1; [discriminate E1|]. injection E1 as _ <-.
+    destruct (srem {| sd := sd r; sp := sp r + 4 |} <? 4) eqn:G2; cbn [bind fst snd] in E2; [discriminate E2|]. injection E2 as _ <-.
+    unfold srem in *; cbn in *. lia.
+  Qed.
+
+  Lemma counter_records_good : forall k n r m, okr r -> Z.max 0 (srem r) < 8 * Z.of_nat k -> good (counter_records' k n r m) r.
+  Proof.
+    induction k as [|k IH]; intros n r m H Hf; cbn [counter_records]; destruct (n <=? 0); try (cbn; split; [exact H|lia]); [lia|].
+    destruct (sread_u_good 4 r H ltac:(lia)) as [Hg1 _]. destruct (sread_u 4 r) as [[f q1]| | |] eqn:E1; cbn [bind fst snd good] in *; try contradiction; auto. destruct Hg1 as [H1 S1].
+    destruct (sread_u_good 4 q1 H1 ltac:(lia)) as [Hg2 Hv2]. destruct (sread_u 4 q1) as [[l q2]| | |] eqn:E2; cbn [bind fst snd good] in *; try contradiction; auto. destruct Hg2 as [H2 S2].
+    specialize (Hv2 _ _ eq_refl). destruct (two_reads _ _ _ _ _ E1 E2) as [S8 S8'].
+    destruct (counter_layout' f) as [[[key L] F]|] eqn:Ecl.
+    - pose proof (sread_layout_good L (counter_layout_nonneg _ _ _ _ Ecl) q2 H2) as Hg.
+      destruct (sread_layout L q2) as [[fs q3]| | |]; cbn [bind fst snd good] in *; try contradiction; auto. destruct Hg as [H3 S3].
+      specialize (IH (n - 1) q3 (set_member key (JObj (obj_of (struct_of F fs))) m) H3 ltac:(lia)).
+      destruct (counter_records' k (n - 1) q3 _) as [[m' q4]| | |]; cbn [good] in *; auto. destruct IH; split; [assumption|lia].
+    - destruct (sseek_good l q2 H2 Hv2) as [H3 S3]. specialize (IH (n - 1) (sseek l q2) m H3 ltac:(lia)).
+      destruct (counter_records' k (n - 1) (sseek l q2) m) as [[m' q4]| | |]; cbn [good] in *; auto. destruct IH; split; [assumption|lia].
+  Qed.
+
+  Lemma sfuel_enough r q : okr q -> sd q = sd r -> Z.max 0 (srem q) < 8 * Z.of_nat (sfuel r).
+  Proof. intros [_ Hp] E. unfold sfuel, srem. rewrite E. unfold len. lia. Qed.
+
+  Notation decode_flow_sample' := (decode_flow_sample flow_sample_l ext_switch_l flow_sample_f ext_switch_f).
+  Notation decode_counter_sample' := (decode_counter_sample counter_sample_l generic_l ethernet_l tokenring_l vg_l vlan_l processor_l counter_sample_f generic_f ethernet_f tokenring_f vg_f vlan_f processor_f).
+
+  (* sd is never changed by a reader operation *)
+  Lemma sread_layout_sd L : forall r fs q, sread_layout L r = Ok (fs, q) -> sd q = sd r.
+  Proof.
+    induction L as [|[nm w] L IH]; intros r fs q E; cbn [sread_layout] in E; [injection E as _ <-; reflexivity|].
+    destruct (String.eqb nm "").
+    - rewrite (IH _ _ _ E). unfold sseek. destruct (_ <? 0); reflexivity.
+    - unfold sread_u, sread_full in E. destruct (w =? 0); cbn [bind fst snd] in E.
+      + destruct (sread_layout L r) as [[fs2 q2]| | |] eqn:E2; cbn [bind fst snd] in E; try discriminate E. injection E as _ <-. exact (IH _ _ _ E2).
+      + destruct (srem r <? w); cbn [bind fst snd] in E; [discriminate E|].
+        destruct (sread_layout L _) as [[fs2 q2]| | |] eqn:E2; cbn [bind fst snd] in E; try discriminate E. injection E as _ <-. rewrite (IH _ _ _ E2). reflexivity.
+  Qed.
+
+  Lemma decode_flow_sample_good r : okr r -> good (decode_flow_sample' r) r.
+  Proof.
+    intros H. unfold decode_flow_sample.
+    pose proof (sread_layout_good flow_sample_l Hfs r H) as Hg. destruct (sread_layout flow_sample_l r) as [[h q]| | |] eqn:E; cbn [bind fst snd good] in *; try contradiction; auto.
+    destruct Hg as [Hq Sq].
+    pose proof (flow_records_good ext_switch_l ext_switch_f Hes (sfuel r) (field_get "RecordsNo" (struct_of flow_sample_f h)) q [] Hq (sfuel_enough r q Hq (sread_layout_sd _ _ _ _ E))) as Hg2.
+    destruct (flow_records _ _ _ _ q []) as [[rs q2]| | |]; cbn [bind fst snd good] in *; try contradiction; auto. destruct Hg2; split; [assumption|lia].
+  Qed.
+
+  Lemma decode_counter_sample_good r : okr r -> good (decode_counter_sample' r) r.
+  Proof.
+    intros H. unfold decode_counter_sample.
+    pose proof (sread_layout_good counter_sample_l Hcs r H) as Hg. destruct (sread_layout counter_sample_l r) as [[h q]| | |] eqn:E; cbn [bind fst snd good] in *; try contradiction; auto.
+    destruct Hg as [Hq Sq].
+    pose proof (counter_records_good (sfuel r) (field_get "RecordsNo" (struct_of counter_sample_f h)) q [] Hq (sfuel_enough r q Hq (sread_layout_sd _ _ _ _ E))) as Hg2.
+    destruct (counter_records' _ _ q []) as [[rs q2]| | |]; cbn [bind fst snd good] in *; try contradiction; auto. destruct Hg2; split; [assumption|lia].
+  Qed.
+
+  Notation samples_loop' := (samples_loop flow_sample_l counter_sample_l ext_switch_l generic_l ethernet_l tokenring_l vg_l vlan_l processor_l
+                                          flow_sample_f counter_sample_f ext_switch_f generic_f ethernet_f tokenring_f vg_f vlan_f processor_f).
+
+  (* the sample loop: total, and it yields at most one sample per 8 octets on top of what it started with *)
+  Lemma samples_loop_total : forall k filter n r ss cs, okr r -> Z.max 0 (srem r) < 8 * Z.of_nat k ->
+    match samples_loop' k filter n r ss cs with
+    | Ok (SFOk ss' cs') => len ss' + len cs' <= len ss + len cs + Z.max 0 (srem r) / 8
+    | Ok _ => True
+    | _ => False
+    end.
+  Proof.
+    induction k as [|k IH]; intros filter n r ss cs H Hf; cbn [samples_loop]; destruct (n <=? 0); try (pose proof (Z.div_pos (Z.max 0 (srem r)) 8); lia).
+    destruct (sread_u_good 4 r H ltac:(lia)) as [Hg1 _]. destruct (sread_u 4 r) as [[t q1]| | |] eqn:E1; cbn [catch bind fst snd good] in *; try contradiction; auto. destruct Hg1 as [H1 S1].
+    destruct (sread_u_good 4 q1 H1 ltac:(lia)) as [Hg2 Hv2]. destruct (sread_u 4 q1) as [[l q2]| | |] eqn:E2; cbn [catch bind fst snd good] in *; try contradiction; auto. destruct Hg2 as [H2 S2].
+    specialize (Hv2 _ _ eq_refl). destruct (two_reads _ _ _ _ _ E1 E2) as [S8 S8'].
+    assert (Hdiv : forall x, x <= srem r - 8 -> Z.max 0 x / 8 + 1 <= Z.max 0 (srem r) / 8).
+    { intros x Hx. replace (Z.max 0 (srem r)) with (srem r) by lia. destruct (Z.max_spec 0 x) as [[_ ->]|[_ ->]].
+      - replace (srem r) with ((srem r - 8) + 1 * 8) by lia. rewrite Z.div_add by lia. apply Z.add_le_mono_r. apply Z.div_le_mono; lia.
+      - cbn. replace (srem r) with ((srem r - 8) + 1 * 8) by lia. rewrite Z.div_add by lia. pose proof (Z.div_pos (srem r - 8) 8). lia. }
+    assert (Hrec : forall q ss2 cs2, okr q -> srem q <= srem q2 -> len ss2 + len cs2 <= len ss + len cs + 1 ->
+              match samples_loop' k filter (n - 1) q ss2 cs2 with
+              | Ok (SFOk ss' cs') => len ss' + len cs' <= len ss + len cs + Z.max 0 (srem r) / 8
+              | Ok _ => True | _ => False end).
+    { intros q ss2 cs2 Hq Sq Hl. specialize (IH filter (n - 1) q ss2 cs2 Hq ltac:(lia)).
+      destruct (samples_loop' k filter (n - 1) q ss2 cs2) as [[| |ss' cs']| | |]; auto. specialize (Hdiv (srem q) ltac:(lia)). lia. }
+    destruct (existsb _ filter).
+    { destruct (sseek_good l q2 H2 Hv2) as [H3 S3]. apply Hrec; [exact H3|lia|lia]. }
+    destruct (_ =? 1).
+    { pose proof (decode_flow_sample_good q2 H2) as Hg. destruct (decode_flow_sample' q2) as [[s q3]| | |]; cbn [catch good] in *; try contradiction; auto.
+      destruct Hg as [H3 S3]. apply Hrec; [exact H3|lia|]. rewrite len_app, len_cons, len_nil. lia. }
+    destruct (_ =? 2).
+    { pose proof (decode_counter_sample_good q2 H2) as Hg. destruct (decode_counter_sample' q2) as [[s q3]| | |]; cbn [catch good] in *; try contradiction; auto.
+      destruct Hg as [H3 S3]. apply Hrec; [exact H3|lia|]. rewrite len_app, len_cons, len_nil. lia. }
+    destruct (sseek_good l q2 H2 Hv2) as [H3 S3]. apply Hrec; [exact H3|lia|lia].
+  Qed.
+End SF2.
+
+Section Top.
+  Variables (flow_sample_l counter_sample_l ext_switch_l generic_l ethernet_l tokenring_l vg_l vlan_l processor_l : layout).
+  Variables (flow_sample_f counter_sample_f ext_switch_f generic_f ethernet_f tokenring_f vg_f vlan_f processor_f : list string).
+  Hypothesis Hfs : layout_nonneg flow_sample_l.
+  Hypothesis Hcs : layout_nonneg counter_sample_l.
+  Hypothesis Hes : layout_nonneg ext_switch_l.
+  Hypothesis Hgen : layout_nonneg generic_l.
+  Hypothesis Heth : layout_nonneg ethernet_l.
+  Hypothesis Htr : layout_nonneg tokenring_l.
+  Hypothesis Hvg : layout_nonneg vg_l.
+  Hypothesis Hvl : layout_nonneg vlan_l.
+  Hypothesis Hpr : layout_nonneg processor_l.
+
+  Notation sf_decode' := (sf_decode flow_sample_l counter_sample_l ext_switch_l generic_l ethernet_l tokenring_l vg_l vlan_l processor_l
+                                    flow_sample_f counter_sample_f ext_switch_f generic_f ethernet_f tokenring_f vg_f vlan_f processor_f).
+
+  Definition doc_samples (j : jv) : Z :=
+    match j with
+    | JObj l => fold_right (fun kv acc => match snd kv with JArr a => len a + acc | _ => acc end) 0 l
+    | _ => 0
+    end.
+
+  (* SFDecode on ANY datagram of octets: never panics, never loops; what it publishes holds at most one sample or
+     counter block per 8 octets of the datagram *)
+  Theorem sf_decode_safe filter p : wf_bytes p ->
+    exists ok o, sf_decode' filter p = Ok (ok, o) /\
+      match o with Some j => doc_samples j <= len p / 8 | None => True end.
+  Proof.
+    intros Hp. unfold sf_decode. set (r0 := {| sd := p; sp := 0 |}).
+    assert (H0 : okr r0) by (split; [exact Hp|cbn; lia]).
+    assert (Hsd : forall n r v q, sread_u n r = Ok (v, q) -> sd q = sd r).
+    { intros n r v q E. unfold sread_u, sread_full in E. destruct (n =? 0); cbn [bind fst snd] in E; [injection E as _ <-; reflexivity|].
+      destruct (srem r <? n); cbn [bind fst snd] in E; [discriminate E|]. injection E as _ <-. reflexivity. }
+    destruct (sread_u_good 4 r0 H0 ltac:(lia)) as [Hg1 _]. destruct (sread_u 4 r0) as [[v q1]| | |] eqn:E1; cbn [catch bind fst snd good] in *; try contradiction; [|do 2 eexists; split; [reflexivity|exact I]].
+    destruct Hg1 as [H1 S1]. destruct (negb (v =? 5)); cbn [catch]; [do 2 eexists; split; [reflexivity|exact I]|].
+    destruct (sread_u_good 4 q1 H1 ltac:(lia)) as [Hg2 _]. destruct (sread_u 4 q1) as [[iv q2]| | |] eqn:E2; cbn [catch bind fst snd good] in *; try contradiction; [|do 2 eexists; split; [reflexivity|exact I]].
+    destruct Hg2 as [H2 S2].
+    pose proof (sread_buf_good (if iv =? 2 then 16 else 4) q2 H2 ltac:(destruct (iv =? 2); lia)) as Hg3.
+    destruct (sread_buf _ q2) as [[ip q3]| | |] eqn:E3; cbn [catch bind fst snd good] in *; try contradiction; [|do 2 eexists; split; [reflexivity|exact I]].
+    destruct Hg3 as [H3 S3].
+    destruct (sread_u_good 4 q3 H3 ltac:(lia)) as [Hg4 _]. destruct (sread_u 4 q3) as [[sub q4]| | |] eqn:E4; cbn [catch bind fst snd good] in *; try contradiction; [|do 2 eexists; split; [reflexivity|exact I]]. destruct Hg4 as [H4 S4].
+    destruct (sread_u_good 4 q4 H4 ltac:(lia)) as [Hg5 _]. destruct (sread_u 4 q4) as [[sq q5]| | |] eqn:E5; cbn [catch bind fst snd good] in *; try contradiction; [|do 2 eexists; split; [reflexivity|exact I]]. destruct Hg5 as [H5 S5].
+    destruct (sread_u_good 4 q5 H5 ltac:(lia)) as [Hg6 _]. destruct (sread_u 4 q5) as [[up q6]| | |] eqn:E6; cbn [catch bind fst snd good] in *; try contradiction; [|do 2 eexists; split; [reflexivity|exact I]]. destruct Hg6 as [H6 S6].
+    destruct (sread_u_good 4 q6 H6 ltac:(lia)) as [Hg7 _]. destruct (sread_u 4 q6) as [[n q7]| | |] eqn:E7; cbn [catch bind fst snd good] in *; try contradiction; [|do 2 eexists; split; [reflexivity|exact I]]. destruct Hg7 as [H7 S7].
+    assert (Hf : Z.max 0 (srem q7) < 8 * Z.of_nat (sfuel q7)) by (apply (sfuel_enough q7 q7 H7 eq_refl)).
+    pose proof (samples_loop_total flow_sample_l counter_sample_l ext_switch_l generic_l ethernet_l tokenring_l vg_l vlan_l processor_l
+                  flow_sample_f counter_sample_f ext_switch_f generic_f ethernet_f tokenring_f vg_f vlan_f processor_f
+                  Hfs Hcs Hes Hgen Heth Htr Hvg Hvl Hpr (sfuel q7) filter n q7 [] [] H7 Hf) as Hl.
+    destruct (samples_loop _ _ _ _ _ _ _ _ _ _ _ _ _ _ _ _ _ _ (sfuel q7) filter n q7 [] []) as [[| |ss cs]| | |]; cbn [bind] in *; try contradiction;
+      try (do 2 eexists; split; [reflexivity|exact I]).
+    assert (Hb : len ss + len cs <= len p / 8).
+    { change (len (@nil jv)) with 0 in Hl. assert (srem r0 = len p) by (unfold srem, r0; cbn; lia). assert (srem q7 <= len p) by lia.
+      assert (Z.max 0 (srem q7) / 8 <= len p / 8) by (apply Z.div_le_mono; unfold len in *; lia). lia. }
+    destruct ss as [|s ss0]; [destruct cs as [|c0 cs0]; [do 2 eexists; split; [reflexivity|exact I]|]|];
+      do 2 eexists; (split; [reflexivity|]); cbn [doc_samples fold_right snd]; lia.
+  Qed.
+End Top.
+
+Lemma layout_nonneg_b L : forallb (fun x => 0 <=? snd x) L = true -> layout_nonneg L.
+Proof. intros H. apply Forall_forall. intros x Hx. rewrite forallb_forall in H. specialize (H x Hx). lia. Qed.
+
+(* the instance the collector runs: the layouts regenerated from sflow/*.go *)
+From VF Require Gen.Layouts.
+Module GL := VF.Gen.Layouts.
+Definition sf_decode_src :=
+  sf_decode GL.sf_flow_sample_layout GL.sf_counter_sample_layout GL.sf_ext_switch_layout GL.sf_generic_layout GL.sf_ethernet_layout
+            GL.sf_tokenring_layout GL.sf_vg_layout GL.sf_vlan_layout GL.sf_processor_layout
+            GL.sf_flow_sample_fields GL.sf_counter_sample_fields GL.sf_ext_switch_fields GL.sf_generic_fields GL.sf_ethernet_fields
+            GL.sf_tokenring_fields GL.sf_vg_fields GL.sf_vlan_fields GL.sf_processor_fields.
+
+Theorem sf_decode_src_safe filter p : wf_bytes p ->
+  exists ok o, sf_decode_src filter p = Ok (ok, o) /\ match o with Some j => doc_samples j <= len p / 8 | None => True end.
+Proof. apply sf_decode_safe; apply layout_nonneg_b; reflexivity. Qed.
